@@ -891,10 +891,14 @@ fn px(rng: &mut Rng) -> Decimal {
 fn gen_setup(rng: &mut Rng, tb: &Table) -> Vec<Ev> {
     let mut tracks: Vec<Vec<Ev>> = vec![];
     let mut next = 0u32;
+    // client order ids only have to be unique per instrument (orders are tracked per instrument): in a third
+    // of the cases a strategy names its orders the same way on every instrument ("q1", "q2", ...)
+    let shared_ids = rng.chance(1, 3);
     for i in 0..tb.n {
         if rng.chance(1, 12) {
             continue; // untouched instrument
         }
+        let mut ord = 0u32;
         // ---- orders
         // kinds: 0 in flight, 1 open, 2 partially filled, 3 open via snapshot only, 4 cancel of open (with id),
         // 5 cancel of open (request without id), 6 cancel of in-flight, 7 cancel of in-flight then confirmed,
@@ -911,7 +915,8 @@ fn gen_setup(rng: &mut Rng, tb: &Table) -> Vec<Ev> {
         rng.shuffle(&mut kinds);
         for k in kinds {
             next += 1;
-            let cid = format!("c{next}");
+            ord += 1;
+            let cid = if shared_ids { format!("q{ord}") } else { format!("c{next}") };
             let buy = rng.bool();
             let (p, q) = (px(rng), qty(rng));
             let (ps, qs) = (p.to_string(), q.to_string());
